@@ -67,10 +67,10 @@ def run1(scn, is_async):
     pos = [Obj("pos%d" % i) for i in range(scn["npos"])]
     kw = {k: Obj("kw:" + k) for k in scn["kw"]}
     try:
-        inspect.signature(f).bind(*pos, **kw)
+        # the call itself is the reference (inspect.signature(f).bind wrongly rejects f(a=1) for `def f(a=0, /, **c)` on 3.12)
+        body = asyncio.run(f(*pos, **kw)) if is_async else f(*pos, **kw)
     except TypeError:
         return None  # Python cannot bind this call: outside the property's quantifier
-    body = asyncio.run(f(*pos, **kw)) if is_async else f(*pos, **kw)
     problems = []
     for name, kind, _ in params:
         if kind in ("VP", "VK"):
